@@ -21,6 +21,7 @@ import (
 	vesttypes "github.com/chain4energy/c4e-chain/x/cfevesting/types"
 	sdk "github.com/cosmos/cosmos-sdk/types"
 	authtypes "github.com/cosmos/cosmos-sdk/x/auth/types"
+	vestingtypes "github.com/cosmos/cosmos-sdk/x/auth/vesting/types"
 )
 
 func clearStore(ctx sdk.Context, ta *TestApp, storeKey string) {
@@ -202,6 +203,33 @@ func runVGenesisCase(ta *TestApp, seed uint64, idx int, rep *Report, profile str
 	}
 	if uint64(nTr+1) > count {
 		count = uint64(nTr + 1)
+	}
+	// half of the recorded addresses are continuous vesting accounts of the chain: some still vesting, some whose vesting is over or
+	// whose vesting coins are all delegated — accounts that lock nothing any more are still recorded as genesis-derived
+	for i := range traces {
+		if !rng.Bool() {
+			continue
+		}
+		addr, err := sdk.AccAddressFromBech32(traces[i].Address)
+		if err != nil {
+			continue
+		}
+		ov := sdk.NewCoins(sdk.NewInt64Coin(BondDenom, 1000+rng.I64n(100000)))
+		bacc := ta.App.AccountKeeper.NewAccountWithAddress(ctx, addr).(*authtypes.BaseAccount)
+		start, end := now.Unix()-1000, now.Unix()+100000
+		kindOf := rng.Intn(3)
+		if kindOf == 0 { // vesting over
+			start, end = now.Unix()-5000, now.Unix()-10
+		}
+		cva := vestingtypes.NewContinuousVestingAccount(bacc, ov, start, end)
+		if kindOf == 1 { // everything that still vests is delegated
+			cva.DelegatedVesting = ov
+		}
+		ta.App.AccountKeeper.SetAccount(ctx, cva)
+		if kindOf != 1 {
+			fundAddr(ctx, ta, addr, ov)
+		}
+		rep.Count(fmt.Sprintf("trace.address_is_vesting_account.kind%d", kindOf))
 	}
 	switch choose {
 	case 12:
@@ -419,6 +447,8 @@ func runVGenesisCase(ta *TestApp, seed uint64, idx int, rep *Report, profile str
 			for _, a := range exp1.AccountVestingPools {
 				nPoolsOut += len(a.VestingPools)
 			}
+			rep.Eval("C17.recorded_lineage_survives_the_export", len(exp1.VestingAccountTraces) == len(traces) && exp1.VestingAccountTraceCount == count, idx, 0,
+				fmt.Sprintf("the genesis records %d addresses (counter %d), the export %d (counter %d)", len(traces), count, len(exp1.VestingAccountTraces), exp1.VestingAccountTraceCount))
 			rep.Eval("C12.vesting_genesis_nothing_lost", len(exp1.AccountVestingPools) == len(avps) && nPoolsIn == nPoolsOut && len(exp1.VestingAccountTraces) == len(traces) &&
 				exp1.VestingAccountTraceCount == count && len(exp1.VestingTypes) == len(gvts) && exp1.Params.Denom == denom, idx, 0,
 				fmt.Sprintf("genesis %d owners %d pools %d traces; export %d owners %d pools %d traces", len(avps), nPoolsIn, len(traces), len(exp1.AccountVestingPools), nPoolsOut, len(exp1.VestingAccountTraces)))
